@@ -8,6 +8,8 @@ package cppki
 //	signed_trc.go  s.verifyAll(certs)          -> verifVerifyAll(s, certs)      (CMS signatures: ideal relation)
 //	trc.go         trc.Validate() (in ValidateUpdate) -> verifValidatePayload(trc) (payload rules: property C33)
 //	certs.go       certs[0].Verify(x509.VerifyOptions{..}) -> verifX509Verify(certs[0], ..) (X.509 path building)
+//	certs.go/trc.go x509.NewCertPool() -> verifNewCertPool(), pool.AddCert(c) -> verifAddCert(pool, c)
+//	               (x509.CertPool is opaque and hashes Raw with SHA-224; the registry records its members)
 
 import (
 	"crypto/x509"
@@ -32,4 +34,20 @@ func verifValidatePayload(trc *TRC) error {
 
 func verifX509Verify(c *x509.Certificate, opts x509.VerifyOptions) ([][]*x509.Certificate, error) {
 	return nil, VerifHookX509Verify(c, opts)
+}
+
+// VerifPools records the members of every certificate pool built by the real code.
+var VerifPools = map[*x509.CertPool][]*x509.Certificate{}
+
+func verifNewCertPool() *x509.CertPool {
+	p := new(x509.CertPool)
+	VerifPools[p] = nil
+	return p
+}
+
+func verifAddCert(p *x509.CertPool, c *x509.Certificate) {
+	if c == nil {
+		panic("adding nil Certificate to CertPool")
+	}
+	VerifPools[p] = append(VerifPools[p], c)
 }
